@@ -380,6 +380,75 @@ func genWideOn(t *rapid.T, doc map[string]any, sc *c07Schema, only []string) *Wi
 		}
 		w.Tpl = fmt.Sprintf("SELECT {F@select-item:%s} AS a1, %s FROM {T} WHERE %s %sIN (%s)", k, s, rapid.SampledFrom([]string{k, s}).Draw(t, "inarr.col"), rapid.SampledFrom([]string{"", "NOT "}).Draw(t, "inarr.not"),
 			rapid.SampledFrom([]string{"lst", items, "lst, 5", "`lst[each].r`", "lst, " + items}).Draw(t, "inarr.list"))
+	case "union-windowed":
+		// (not in wideConstructs: drawn only by checks that list it themselves, see c11Constructs)
+		// 2-3 union arms, each with its own select list (bare star / plain columns / computed), source, optional WHERE,
+		// and - parenthesised - its own ORDER BY / LIMIT [OFFSET] window; at top level, as the body of a CTE, or in a derived table
+		narms := rapid.IntRange(2, 3).Draw(t, "uw.arms")
+		body := ""
+		for i := 0; i < narms; i++ {
+			l := fmt.Sprintf("uw.a%d", i)
+			src, cols, key := "{T}", k+", "+s, k
+			switch rapid.IntRange(0, 5).Draw(t, l+".src") {
+			case 0, 1:
+				src, cols, key = "{T2}", c2, c2
+			case 2:
+				src, cols, key = "`{T}."+items+"`", p+", "+q, p
+			}
+			var sel string
+			switch rapid.IntRange(0, 3).Draw(t, l+".sel") {
+			case 0, 1:
+				sel = "*"
+			case 2:
+				sel = cols
+			default:
+				sel = fmt.Sprintf("{F@union-arm-%d:%s} AS u", i+1, key)
+				if rapid.Bool().Draw(t, l+".twocols") {
+					sel += fmt.Sprintf(", (%s * 2) AS dbl", key)
+				}
+			}
+			arm := "SELECT " + sel + " FROM " + src
+			if rapid.IntRange(0, 2).Draw(t, l+".where") == 0 {
+				arm += fmt.Sprintf(" WHERE {F@union-arm-where-%d:%s} %s %s", i+1, key, op(l+".op"), num(l+".c"))
+			}
+			paren := rapid.Bool().Draw(t, l+".paren")
+			if rapid.IntRange(0, 4).Draw(t, l+".order") == 0 {
+				arm += fmt.Sprintf(" ORDER BY %s %s", key, rapid.SampledFrom([]string{"ASC", "DESC"}).Draw(t, l+".dir"))
+				paren = true
+			}
+			if rapid.IntRange(0, 3).Draw(t, l+".window") != 0 {
+				arm += fmt.Sprintf(" LIMIT %d", rapid.IntRange(0, 3).Draw(t, l+".n"))
+				if rapid.IntRange(0, 2).Draw(t, l+".offset") == 0 {
+					arm += fmt.Sprintf(" OFFSET %d", rapid.IntRange(0, 2).Draw(t, l+".m"))
+				}
+				paren = true
+			}
+			if paren {
+				arm = "(" + arm + ")"
+			}
+			if i > 0 {
+				kw := rapid.SampledFrom([]string{"UNION ALL", "UNION ALL", "UNION"}).Draw(t, l+".kw")
+				if kw == "UNION" {
+					w.Unordered = true
+				}
+				body += " " + kw + " "
+			}
+			body += arm
+		}
+		if rapid.IntRange(0, 5).Draw(t, "uw.outerlimit") == 0 {
+			body += fmt.Sprintf(" LIMIT %d", rapid.IntRange(0, 5).Draw(t, "uw.on"))
+		}
+		switch rapid.IntRange(0, 3).Draw(t, "uw.place") {
+		case 0, 1:
+			w.Tpl = body
+		case 2:
+			w.Tpl = fmt.Sprintf("WITH c AS (%s) SELECT %s FROM c", body, rapid.SampledFrom([]string{"*", "*", k, c2, "u"}).Draw(t, "uw.ctesel"))
+			if rapid.IntRange(0, 2).Draw(t, "uw.ctewhere") == 0 {
+				w.Tpl += fmt.Sprintf(" WHERE {F@outer-where:%s} %s %s", rapid.SampledFrom([]string{k, c2, "u"}).Draw(t, "uw.ctewcol"), op("uw.cteop"), num("uw.ctec"))
+			}
+		default:
+			w.Tpl = fmt.Sprintf("SELECT %s FROM (%s) x", rapid.SampledFrom([]string{"*", "*", "x." + k, "x." + c2, "x.u"}).Draw(t, "uw.dersel"), body)
+		}
 	case "like-is":
 		w.Tpl = fmt.Sprintf("SELECT %s, %s FROM {T} WHERE {F@like-operand:%s} LIKE %s OR {F@is-operand:%s} IS NULL OR %s IS NOT NULL", k, s, s, sq.StrLit(rapid.SampledFrom([]string{"a%", "%b", "_", "%"}).Draw(t, "pat")), "nokey", v)
 	}
